@@ -35,7 +35,8 @@ import (
 type Env struct {
 	Coord *ibctesting.Coordinator
 	A, B  *ibctesting.TestChain
-	base  sdk.Context // context over chain A's working state; block time/height are overridden per op
+	root  sdk.Context // context over chain A's working state
+	base  sdk.Context // per-history cache context over root (discarded at the next reset, so the store stays small)
 	K     *clientkeeper.Keeper
 	Cdc   codec.BinaryCodec
 	SelfRev uint64
@@ -55,11 +56,17 @@ func NewEnv() *Env {
 	a := coord.GetChain(ibctesting.GetChainID(1))
 	b := coord.GetChain(ibctesting.GetChainID(2))
 	e := &Env{Coord: coord, A: a, B: b}
-	e.base = a.GetContext()
+	e.root = a.GetContext()
+	e.base = e.root
 	e.K = a.App.GetIBCKeeper().ClientKeeper
 	e.Cdc = a.App.AppCodec()
 	e.SelfRev = clienttypes.ParseChainID(a.ChainID)
 	return e
+}
+
+// FreshBase starts a new history on a pristine copy-on-write view of chain A's state.
+func (e *Env) FreshBase() {
+	e.base, _ = e.root.CacheContext()
 }
 
 // Ctx returns a context at the harness-controlled block time and height, with a fresh event manager.
